@@ -291,7 +291,12 @@ def recursive_rules(repo):
         for b in base:
             st.add(b)
         _argmin_axioms(st)
-        s_, e_ = st.env.get("start"), st.env.get("end")
+        # the span is whatever stands in positions 1 and 2 of the appended tuple (not the locals that happen to be called start / end)
+        tup = ap.args[0] if getattr(ap, "args", None) and isinstance(ap.args[0], ast.Tuple) and len(ap.args[0].elts) >= 3 else None
+        if tup is not None:
+            s_, e_ = ai.lin(st, tup.elts[1]), ai.lin(st, tup.elts[2])
+        else:
+            s_, e_ = st.env.get("start"), st.env.get("end")
         L = Lin.atom("X.shape[-1]")
         if s_ is None or e_ is None:
             return None
